@@ -241,6 +241,19 @@ theorem same_instant (off : Instant → Int) (t : Instant) :
   show secondsOfFields (fieldsOfSeconds (t + off t)) - off t = t
   rw [seconds_of_fields_of_seconds]; omega
 
+/-- the table form of a zone is read the way pytz reads it (`bisect_right(times, t) - 1`, clamped):
+    the offset in force at `t` is that of the LAST transition at or before `t`, and the initial
+    offset when every transition is later -/
+theorem zone_off_spec (z : Zone) (t : Instant) :
+    ((∀ p ∈ z.trans, t < p.1) → z.off t = z.init) ∧
+    (∀ pre post u o, z.trans = pre ++ (u, o) :: post → u ≤ t → (∀ p ∈ post, t < p.1) → z.off t = o) := by
+  refine ⟨fun h => foldl_later t z.trans z.init h, ?_⟩
+  intro pre post u o hz hu hpost
+  unfold Zone.off
+  rw [hz, List.foldl_append, List.foldl_cons]
+  simp only [hu, ↓reduceIte]
+  exact foldl_later t post o hpost
+
 /-- `parse_http_date(s, tz)`: whenever it succeeds, the result denotes exactly the instant the
     RFC-1123 string denotes, localised to `tz` -/
 theorem parse_http_date_same_instant (off : Instant → Int) (s : String) (a : Aware)
